@@ -203,6 +203,9 @@ pub struct World {
     pub prev_effective: BTreeSet<EvRef>,
     /// crash injection: (step id, tick index) at which the acting node's process dies
     pub arm_crash: Option<(u32, u64)>,
+    /// run every step on a fresh thread (seam::step_isolated): needed wherever two runs that
+    /// differ in an earlier step are compared (C11 twin, C12 crash runs)
+    pub isolate_steps: bool,
     /// (step id, tick): keep a copy of the node's directory as it is at this tick of the step
     /// (the statement boundary in front of the transaction a crash is armed in)
     pub arm_baseline: Option<(u32, u64)>,
@@ -298,6 +301,7 @@ impl World {
             prev_effective: BTreeSet::new(),
             arm_crash: None,
             arm_baseline: None,
+            isolate_steps: false,
             txn_baseline_view: None,
             count_ticks: false,
             group_blobs: BTreeMap::new(),
@@ -535,13 +539,14 @@ impl World {
         let captures = std::rc::Rc::new(std::cell::RefCell::new(Vec::<(String, String, Vec<u8>)>::new()));
         self.sidecar_captures.clear();
         let hook_on = (self.count_ticks || armed_k.is_some() || capture) && self.nodes[node].cfg.backend.is_sqlite();
+        let mut hook: Option<Box<dyn FnMut(mdk_sqlite_storage::verif::Point)>> = None;
         if hook_on {
             let ts = tick_state.clone();
             let tl = tick_labels.clone();
             let dir = self.nodes[node].dir.clone();
             let image = self.nodes[node].dir.with_extension("crashimage");
             let cap = captures.clone();
-            mdk_sqlite_storage::verif::set_thread_hook(Some(Box::new(move |p| {
+            hook = Some(Box::new(move |p| {
                 use mdk_sqlite_storage::verif::Point;
                 if matches!(p, Point::Lock) {
                     return;
@@ -583,12 +588,20 @@ impl World {
                     ts.borrow_mut().1 = Some(format!("{p:?}"));
                     std::panic::panic_any(SimulatedCrash);
                 }
-            })));
+            }));
         }
-        let res = std::panic::catch_unwind(std::panic::AssertUnwindSafe(|| self.exec_inner(step, &pre_state)));
-        if hook_on {
+        // the call itself runs on a fresh thread: see seam::step_isolated
+        let (run_seed, cap_logs) = (self.seed, self.capture_logs);
+        let isolate = self.isolate_steps;
+        let call = || {
+            if let Some(h) = hook {
+                mdk_sqlite_storage::verif::set_thread_hook(Some(h));
+            }
+            let r = std::panic::catch_unwind(std::panic::AssertUnwindSafe(|| self.exec_inner(step, &pre_state)));
             mdk_sqlite_storage::verif::set_thread_hook(None);
-        }
+            r
+        };
+        let (res, step_logs) = if isolate { seam::step_isolated(run_seed, step.id as u64, node as u64, cap_logs, call) } else { (call(), vec![]) };
         if want_labels {
             self.last_tick_labels = tick_labels.borrow().clone();
         }
@@ -660,7 +673,8 @@ impl World {
         rec.ticks = ticks;
         rec.crashed_at = crashed;
         if self.capture_logs {
-            rec.logs = crate::logcap::drain();
+            rec.logs = step_logs;
+            rec.logs.extend(crate::logcap::drain());
             rec.debug_out = std::mem::take(&mut self.last_debug);
             if std::env::var("MDK_SIM_CAPTURE").is_ok() {
                 for l in &rec.logs {
